@@ -337,6 +337,17 @@ pub fn gen(args: &[String]) {
                 text = cs[..i].iter().chain(cs[i + k..].iter()).collect();
             }
         }
+        // awkward characters in every place a string can stand (values, defaults, descriptions, deprecation reasons):
+        // DEL, C1 controls, line / paragraph separators, BOM, astral characters, escapes
+        if rng.chance(1, 2) {
+            let awkward = ["\u{7f}", "\u{85}", "\u{9f}", "\u{2028}", "\u{2029}", "\u{feff}", "\u{1F680}", "é", "\\u0085", "\\u007F", "\\\\", "\\\"", "\\n", "\t", "\\u0000"];
+            let mut lit = String::new();
+            for _ in 0..rng.range(1, 4) {
+                lit.push_str(*rng.pick(&awkward));
+                if rng.chance(1, 2) { lit.push_str("line two"); }
+            }
+            text.push_str(&format!("\n\"d {lit}\" type Awk{id} {{ \"{lit}\" f(a: String = \"{lit}\", b: [String] = [\"{lit}\", \"x\"]): Int @deprecated(reason: \"{lit}\") }}\nquery Awk{id}Q($s: String = \"{lit}\") {{ __typename @skip(if: false) }}\n"));
+        }
         out.line(&json!({"id": id, "family": "random", "L": 0, "expect": "either", "text": text}));
     }
 }
